@@ -61,6 +61,7 @@ BOUND = ('values: 60 fixed (clean ASCII/Latin-1/BMP/astral text, CR|LF|NUL|CRLF 
          'escape sequences that form valid UTF-8 such as U+DCC3 U+DCA9) x every entry point x every observation mode x '
          '2 names, pairs (valid value, surrogate value) in both orders over {setitem, append, setdefault, ctor}^2 on one '
          'name x every mode, through set_cookie, and 1500 (thorough 20000) seeded random sequences mixing them in; '
+         'equal-but-different values (1, 1.0, True / 0, 0.0, -0.0, False) offered one after the other on three names, every order of 3 x 3 setters x 3 modes; '
          'redirect(location[, code]) with 14 locations (relative, absolute, other scheme, CR / LF / NUL inside, non-ASCII) x '
          '{default, 301, 303} x request scheme {http, https}: no control character in any emitted header')
 NONTRIVIAL_RULE = ('distinct (mode, status, ctor, ops); non-trivial = at least one operation offers a control-character '
@@ -277,6 +278,15 @@ def gen_cases(tier, seed):
             steps.append((rnd.choice(ents), rnd.choice(NAMES[:6] + ['Vary', 'X-Test', 'X-Test']), v))
         st = rnd.choice(STATUSES) if mode != 'error' else rnd.choice([404, 500, 304, 204, 405])
         yield _case(mode, st, steps)
+    # G: values that are EQUAL but not the same text (1 == 1.0 == True, 0 == 0.0 == -0.0 == False) offered one after the other in one
+    # process: each must be emitted as its own text (a cache keyed by the value would hand out the text of the first)
+    groups = [[{'t': 'int', 'v': 1}, {'t': 'float', 'v': '1.0'}, {'t': 'bool', 'v': True}],
+              [{'t': 'int', 'v': 0}, {'t': 'float', 'v': '0.0'}, {'t': 'float', 'v': '-0.0'}, {'t': 'bool', 'v': False}]]
+    for grp in groups:
+        for perm in itertools.permutations(grp, 3):
+            for entry in ('setitem', 'append', 'setdefault'):
+                for mode in ('direct', 'resp', 'return'):
+                    yield _case(mode, 200, [(entry, name, v) for name, v in zip(('X-A', 'X-B', 'Vary'), perm)])
     # R: the framework's own helper that sets a header from application data: redirect(location) -> Location
     for loc in REDIRECTS:
         for code in (None, 301, 303):
